@@ -326,44 +326,55 @@ class Ctx:
         self.obligation("hygiene: no Admitted/Axiom/Parameter/guard switches in coq/", not bad, "; ".join(bad[:5]))
         if bad:
             self.tie_broken("proof", "hygiene", "; ".join(bad[:10]))
-        prop = f"Props/{self.pid}.v"
-        ok, log = self.build([prop + "o"] + [f + "o" for f in extra_files])
+        import glob as _glob
+        props = [f"Props/{self.pid}.v"] + sorted(
+            os.path.relpath(q, COQ) for q in _glob.glob(os.path.join(COQ, "Props", f"{self.pid}_*.v")))
+        ok, log = self.build([q + "o" for q in props] + [f + "o" for f in extra_files])
         if not ok:
-            self.obligation(f"{prop} and its closure compile", False, log[-600:])
+            self.obligation(f"{' '.join(props)} and their closure compile", False, log[-600:])
             return False
-        out_vo = os.path.join(self.scratch, f"{self.pid}.vo")
-        cmd = ["timeout", "900", "coqc", "-Q", COQ, LOGICAL, "-w", "-notation-overridden", os.path.join(COQ, prop), "-o", out_vo]
-        p = subprocess.run(cmd, cwd=COQ, stdout=subprocess.PIPE, stderr=subprocess.STDOUT, text=True)
-        self.checker_cmds.append(f"coqc -Q coq {LOGICAL} coq/{prop}  (Print Assumptions parsed)")
-        if p.returncode != 0:
-            self.obligation(f"{prop} compiles", False, p.stdout[-600:])
-            self.tie_broken("proof", prop, p.stdout[-600:])
-            return False
-        src = strip_coq_comments(open(os.path.join(COQ, prop)).read())
-        thms = re.findall(r"\b(?:Theorem|Lemma|Corollary)\s+([A-Za-z0-9_']+)", src)
-        n_print = len(re.findall(r"\bPrint\s+Assumptions\b", src))
-        closed = len(re.findall(r"Closed under the global context", p.stdout))
-        axioms = set()
-        for blk in re.finditer(r"Axioms:\n((?:.+\n?)+?)(?=\n\S|\Z)", p.stdout):
-            for line in blk.group(1).splitlines():
-                m = re.match(r"^([A-Za-z0-9_.']+)\s*:", line)
-                if m:
-                    axioms.add(m.group(1))
-        self.axioms |= axioms
-        self.theorems = thms
-        disallowed = sorted(a for a in axioms if a not in ALLOWED_AXIOMS)
-        for t in thms:
-            self.obligation(f"theorem {t} (Props/{self.pid}.v) accepted by coqc", True, "")
-        self.obligation(f"Print Assumptions under every theorem of Props/{self.pid}.v ({n_print} printed, {closed} closed)",
-                        n_print >= len(thms) and not disallowed,
-                        "disallowed axioms: " + ", ".join(disallowed) if disallowed else "")
-        if disallowed:
-            self.tie_broken("proof", prop, "disallowed axioms " + ", ".join(disallowed))
-        if axioms:
-            self.trusted.append("axioms reported by Print Assumptions: " + ", ".join(sorted(axioms)))
+        all_ok = True
+        closed_total = 0
+        for prop in props:
+            out_vo = os.path.join(self.scratch, os.path.basename(prop) + "o")
+            cmd = ["timeout", "900", "coqc", "-Q", COQ, LOGICAL, "-w", "-notation-overridden", os.path.join(COQ, prop), "-o", out_vo]
+            p = subprocess.run(cmd, cwd=COQ, stdout=subprocess.PIPE, stderr=subprocess.STDOUT, text=True)
+            self.checker_cmds.append(f"coqc -Q coq {LOGICAL} coq/{prop}  (Print Assumptions parsed)")
+            if p.returncode != 0:
+                self.obligation(f"{prop} compiles", False, p.stdout[-600:])
+                self.tie_broken("proof", prop, p.stdout[-600:])
+                all_ok = False
+                continue
+            src = strip_coq_comments(open(os.path.join(COQ, prop)).read())
+            thms = re.findall(r"\b(?:Theorem|Lemma|Corollary)\s+([A-Za-z0-9_']+)", src)
+            n_print = len(re.findall(r"\bPrint\s+Assumptions\b", src))
+            closed = len(re.findall(r"Closed under the global context", p.stdout))
+            closed_total += closed
+            axioms = set()
+            for blk in re.finditer(r"Axioms:\n((?:.+\n?)+?)(?=\n\S|\Z)", p.stdout):
+                for line in blk.group(1).splitlines():
+                    m = re.match(r"^([A-Za-z0-9_.']+)\s*:", line)
+                    if m:
+                        axioms.add(m.group(1))
+            self.axioms |= axioms
+            self.theorems += thms
+            disallowed = sorted(a for a in axioms if a not in ALLOWED_AXIOMS)
+            for t in thms:
+                self.obligation(f"theorem {t} ({prop}) accepted by coqc", True, "")
+            self.obligation(f"Print Assumptions under every theorem of {prop} ({n_print} printed, {closed} closed)",
+                            n_print >= len(thms) and not disallowed,
+                            "disallowed axioms: " + ", ".join(disallowed) if disallowed else "")
+            if n_print < len(thms):
+                self.tie_broken("proof", prop, "a theorem without Print Assumptions")
+                all_ok = False
+            if disallowed:
+                self.tie_broken("proof", prop, "disallowed axioms " + ", ".join(disallowed))
+                all_ok = False
+        if self.axioms:
+            self.trusted.append("axioms reported by Print Assumptions: " + ", ".join(sorted(self.axioms)))
         else:
-            self.trusted.append(f"Print Assumptions: all {closed} property theorems closed under the global context (no axioms)")
-        return True
+            self.trusted.append(f"Print Assumptions: all {closed_total} property theorems closed under the global context (no axioms)")
+        return all_ok
 
     def coqchk(self, modules, timeout=2400):
         """Thorough tier: independent re-check of compiled files."""
